@@ -32,7 +32,7 @@ ASSUMPTIONS = [
     "calls with |log u - log A| < 1e-9 relative are counted as undecidable (probability ~1e-9 per call)",
     "thermal wavelength from ase.units CODATA constants: h / sqrt(2 pi m kT)",
 ]
-REQUIRED = {"judged:canonical": 500, "judged:hamiltonian": 100, "judged:isobaric": 300, "judged:isotension": 300, "judged:grand:insert": 150, "judged:grand:delete": 150, "judged:grand:delete-at-zero": 5, "judged_beyond_exp_range": 300, "u_identified": 1500, "parameter_changes": 500}
+REQUIRED = {"judged:canonical": 500, "judged:hamiltonian": 100, "judged:isobaric": 300, "judged:isotension": 300, "judged:grand:insert": 150, "judged:grand:delete": 150, "judged:grand:delete-at-zero": 5, "judged_beyond_exp_range": 300, "u_identified": 1500, "parameter_changes": 500, "passive_simulations": 60}
 SHARD_TIMEOUT = {"quick": 900, "thorough": 3000}
 
 
@@ -44,6 +44,10 @@ def plan(tier, seed):
         for j in range(2 if ens != "hamiltonian" else 1):
             specs.append({"name": f"{ens}{j}", "ens": ens, "j": j, "seed": seed, "sims": 12 if not big else 14, "steps": steps if ens != "hamiltonian" else steps // 3})
     specs.append({"name": "strain", "ens": "strain", "j": 0, "seed": seed, "sims": 200 if not big else 3000, "steps": 0})
+    # passive: the contract rides along in ordinary simulations of every ensemble built by the shared workload generator
+    # (composite moves, molecules, constraints, vetoes, moderate temperatures: real equilibrium-like histories)
+    for j, fam in enumerate(["canonical", "hamiltonian", "isobaric", "isotension", "grand", "grand", "isobaric", "canonical"]):
+        specs.append({"name": f"passive-{fam}{j}", "ens": "passive", "family": fam, "j": j, "seed": seed, "sims": 10 if not big else 60, "steps": 40 if not big else 120})
     return specs
 
 
@@ -238,6 +242,33 @@ def run_strain(rec, spec, rng):
                 rec.viol("C02/isotension/strain-not-isotropic-for-pure-scaling", "reported strain is not proportional to the identity for a pure scaling of the cell", {"strain": eps})
 
 
+def run_passive(rec, spec, rng):
+    from qv import sims, workloads
+
+    for i in range(spec["sims"]):
+        w = workloads.gen(rng, spec["family"], styles=["plain"], p_scripted=0.15, grand_kinds=["E", "E", "D", "D+E", "D*2+E", "same"])
+        try:
+            mc, info = sims.build(w)
+        except Exception as ex:  # noqa: BLE001
+            rec.inconclusive.append(f"passive workload could not be built: {ex}")
+            continue
+        it = {"T": w["T"]}
+        if spec["family"] in ("isobaric", "isotension"):
+            it["P"] = w.get("P", 0.0)
+            if spec["family"] == "isotension":
+                it["S"] = np.array(w["S"])
+        if spec["family"] == "grand":
+            sp = mc.exchange_atoms
+            it.update({"mu": w["mu"], "N": int(mc.number_of_exchange_particles), "V": float(mc.accessible_volume), "species_mass": float(sp.get_masses().sum()), "species_symbols": list(sp.symbols), "single_particle_exchanges": True})
+        metropolis.intend(mc.context, **it)
+        rec.count("passive_simulations")
+        try:
+            mc.run(spec["steps"])
+        except Exception as ex:  # noqa: BLE001  (crashes of whole simulations are the business of C03-C05)
+            rec.count("passive_simulation_aborted")
+            rec.data.setdefault("aborts", []).append(f"{type(ex).__name__}: {str(ex)[:100]}")
+
+
 def run(spec):
     from qv import env
 
@@ -245,7 +276,9 @@ def run(spec):
     rec = Rec(spec["name"])
     metropolis.install(rec)
     rng = rng_for("C02", spec["seed"], spec["name"])
-    if spec["ens"] == "strain":
+    if spec["ens"] == "passive":
+        run_passive(rec, spec, rng)
+    elif spec["ens"] == "strain":
         run_strain(rec, spec, rng)
     else:
         for i in range(spec["sims"]):
